@@ -953,7 +953,17 @@ func (m *Machine) builtin(a *activation, in *ssa.Call, b *ssa.Builtin) {
 	case "copy":
 		x := m.val(c.Args[0])
 		if x.K == Slice {
-			a.cur.havocObj(x.Obj)
+			// only octets at or after the start of the destination slice can change
+			lo := x.Off
+			if lo < 0 {
+				lo = x.OffGE
+			}
+			a.cur.touch()
+			if o := a.cur.get(x.Obj); o != nil && lo > 0 {
+				a.cur.havocFrom(o, x.Path, lo)
+			} else {
+				a.cur.havocObj(x.Obj)
+			}
 		} else {
 			a.cur.havocAll()
 		}
